@@ -102,6 +102,17 @@ type HarnessResult struct {
 	SampleQuery  string         `json:"sample_query,omitempty"`
 }
 
+// pinned returns the path condition with every variable fixed to its model value.
+func (e *Engine) pinned(st *State, model *Env) []*Term {
+	as := append([]*Term(nil), st.pc...)
+	for _, pv := range e.ts.Vars(st.pc...) {
+		if val, ok := model.vals[pv.name]; ok {
+			as = append(as, e.ts.Eq(pv, e.ts.ConstBig(pv.w, val)))
+		}
+	}
+	return as
+}
+
 func (e *Engine) recordViolation(st *State, f *Failure, model *Env) {
 	v := &Violation{Kind: f.kind, Name: f.name, Msg: f.msg, Pos: f.pos, Func: f.fn, Stack: f.stack, Inputs: map[string]string{}, Uncertain: st.uncertain}
 	// the witness must assign every variable of the path condition (and of the failed
@@ -144,6 +155,27 @@ func (e *Engine) recordViolation(st *State, f *Failure, model *Env) {
 				continue
 			}
 			v.Inputs[k] = val.Text(16)
+		}
+		// one consistent interpretation of the uninterpreted functions at all points used by the
+		// path condition and the failed goal (replayed natively by vUFBytes)
+		if len(e.ts.ufs) > 0 {
+			as := e.pinned(st, model)
+			if f.goal != nil {
+				as = append(as, f.goal)
+			}
+			r, m, _ := e.solver.Check(as, true)
+			if r == Sat {
+				for k := range v.Inputs {
+					if strings.HasPrefix(k, "uf:") {
+						delete(v.Inputs, k)
+					}
+				}
+				for k, val := range m {
+					if strings.HasPrefix(k, "uf:") {
+						v.Inputs[k] = val.Text(16)
+					}
+				}
+			}
 		}
 	}
 	// dedupe by kind+name+pos
